@@ -597,6 +597,16 @@ func main() {
 		workerMain()
 		return
 	}
+	if len(os.Args) > 2 && os.Args[1] == "-instr-dump" {
+		// debugging aid: print the instrumented text of one source file
+		txt, err := instrumentFile(os.Args[2], map[string]int{})
+		if err != nil {
+			fmt.Fprintln(os.Stderr, err)
+			os.Exit(2)
+		}
+		fmt.Print(txt)
+		return
+	}
 	defer removeInstrumentedWorker()
 	drv.Main(&drv.Prop{
 		ID:      "C02",
